@@ -26,6 +26,7 @@ func init() {
 			{"C17.R7", "q", "the web entry point defaults to the configured age limit", c17r7},
 			{"C18.R4", "q", "shared: rewritten file cut and released on every exit", c18r4},
 			{"C18.R5", "q", "shared: earlier file appended to, never overwritten", c18r5},
+			{"C17.R8", "q", "admin GC handler forwards its parameters faithfully; pretend unless run=true", c17r8},
 		},
 	})
 }
